@@ -296,6 +296,16 @@ def run_property(pid, tier, seed):
     os.makedirs(wd, exist_ok=True)
     info = {"notes": []}
     try:
+        # ---- the tree must compile: the verified text is only "the code that runs" if the crate builds (the replay crate
+        #      links the library, clisweep builds the binary; both are incremental)
+        from . import replay as R0
+        rb0, err0 = R0.build_replay()
+        if rb0 is None:
+            raise Undecided("the library crate in the current tree does not build (or the replay crate no longer links against it): " + err0[-400:])
+        from . import clisweep as C0
+        bb0, err1 = C0.build_binary(REPO)
+        if bb0 is None:
+            raise Undecided("the rsbdd binary in the current tree does not build: " + err1[-400:])
         # ---- build + faithfulness + verus (with degradation)
         b, path, res = verify_with_degradation(wd)
         # ---- static scan of the code that is NOT under contract
